@@ -32,6 +32,9 @@ CHECKS = {
  "C09": (True, "proptest choice-stream PBT: generated well-posed systems (SPD / strictly diagonally dominant), differential against the harness's textbook CG/BiCG/BiCGSTAB for the iteration budget and against a refined dense solve for accuracy; degenerate-start cases on integer data; libFuzzer(thorough)",
          "Convergence within min(10n+50, 3x textbook count + 15) and agreement with the dense solution within the condition-number bound on every generated well-posed system; exact initial guesses and zero right-hand sides must be accepted with x finite.",
          "Trusted: the textbook reference solvers as well-posedness filter, reference dense solve with refinement, Frobenius condition estimate; tolerances below the double-precision floor are discarded.", "5/C09"),
+ "C10": (True, "proptest choice-stream PBT: polynomials from prescribed roots (complex double-double expansion) and random coefficients; residual oracle in complex double-double, root matching, bit-exact driver replica as known-finding signature; libFuzzer(thorough)",
+         "Hundreds of thousands (thorough: millions) of degree 0..12 polynomials per run over f64/Cmplx, both refinement settings, zero/repeated/clustered roots and vanishing coefficients; every returned value must be finite and a root to a stated backward-error tolerance, well-separated prescribed roots are matched one-to-one; two documented known findings (Laguerre non-convergence, unpolished deflation) are excluded by input-level signature.",
+         "Trusted: complex double-double Horner evaluation; tolerances calibrated with margin; the replica only narrows what a known finding may excuse (its output must be bit-identical to the library's).", "5/C10"),
 }
 NOT_YET = "check not built yet in this revision of /verif (work in progress); the design for it is in DESIGN.md section 5"
 
